@@ -200,6 +200,7 @@ pub fn contents() -> Vec<Content> {
     mx8[7] = 0x7f; // i64::MAX as a little-endian lane
     let mut mn8 = vec![0u8; 8];
     mn8[7] = 0x80; // i64::MIN
+    let (mx8c, mn8c) = (mx8.clone(), mn8.clone());
     vec![
         Content { name: "e0", bytes: vec![] },
         Content { name: "d1", bytes: D16[..1].to_vec() },
@@ -221,6 +222,9 @@ pub fn contents() -> Vec<Content> {
         Content { name: "z16", bytes: vec![0; 16] },
         // i32::MAX, i32::MIN lanes twice
         Content { name: "p16", bytes: rep(&[0xff, 0xff, 0xff, 0x7f, 0x00, 0x00, 0x00, 0x80], 2) },
+        // two i64::MIN lanes / two i64::MAX lanes: sums of two extreme products leave 128 bits
+        Content { name: "mn16", bytes: rep(&mn8c, 2) },
+        Content { name: "mx16", bytes: rep(&mx8c, 2) },
     ]
 }
 
